@@ -203,6 +203,9 @@ func (g *kopGen) drawSpread(t *rapid.T, total float64) kop {
 		if i <= d.minIdx || i >= d.maxIdx {
 			continue
 		}
+		if d.wideLo < d.wideHi && (i < d.wideLo || i > d.wideHi) {
+			continue // the test keeps all values within a range of magnitudes (unit changes must stay well inside every mapping's range)
+		}
 		v := d.clamp(d.m.Value(i))
 		if neg {
 			v = -v
